@@ -8,6 +8,10 @@ Open Scope Z_scope.
 
 Local Notation length := List.length.
 
+Ltac skel_inv H :=
+  unfold skel in H; injection H as ?Kst ?Kcy ?Kfi ?Knv ?Kof ?Kng ?Kpa ?Kco ?Kor ?Kpg.
+Ltac unf := unfold SV, CV, SO, CO, SG, CG, expA, expG, sentGo, link in *.
+
 Section Steps.
   Variable d : dcop.
   Variable stop thr favor : Z.
@@ -18,19 +22,6 @@ Section Steps.
 
   Lemma act_of a b : In a (nbr b) -> nbr b <> [].
   Proof. intros H Hc. rewrite Hc in H. exact H. Qed.
-
-  (* all the facts the invariant gives about an ordered neighbour pair, in arithmetic form *)
-  Ltac nfacts HI n m Hnm :=
-    let R := fresh "R" n in let G := fresh "G" n in let T := fresh "T" n in
-    destruct (rn n) eqn:R;
-    [ pose proof (i_good _ _ _ _ _ HI n R (act_of m n Hnm)) as G;
-      pose proof (tabf d stop n _ m G Hnm) as T
-    | pose proof (idle_tabf (S n) m (i_idle _ _ _ _ _ HI n R)) as T ].
-
-  Ltac skel_inv H :=
-    unfold skel in H; injection H as ?Kst ?Kcy ?Kfi ?Knv ?Kof ?Kng ?Kpa ?Kco ?Kor ?Kpg.
-
-  Ltac unf := unfold SV, CV, SO, CO, SG, CG, expA, expG, sentGo, link in *.
 
   Lemma skel_set_nv s l : skel (set_t_nv s l) = (t_state s, t_cycle s, t_fin s, l, t_offers s, t_ng s, t_partner s, t_committed s, t_offerer s, t_pgain s) /\ posts (set_t_nv s l) = posts s.
   Proof. destruct s; split; reflexivity. Qed.
@@ -58,7 +49,7 @@ Section Steps.
     t_cycle (S b) - 1 + b2z (kinv a (t_ng (S b))) <= t_cycle (S a) - 1 + b2z (4 <=? t_state (S a)).
   Proof.
     intros Hab Ra Rb.
-    destruct (i_pair _ _ _ _ _ HI a b Hab) as [V1 O1 G1 _ _ _ _ _ _ _ _].
+    destruct (i_pair _ _ _ _ _ HI a b Hab) as [V1 O1 G1 _ _ _ _ _ _ _ _ _].
     unf. rewrite Ra, Rb in *.
     pose proof (cnt_nonneg 1 (pd a b)). pose proof (cnt_nonneg 2 (pd a b)). pose proof (cnt_nonneg 4 (pd a b)).
     repeat split; lia.
@@ -138,77 +129,5 @@ Section Steps.
   Lemma in_pd x y l1 m l2 : pd x y = l1 ++ m :: l2 -> In m (pd x y).
   Proof. intros ->. apply in_or_app. right. left. reflexivity. Qed.
 
-  (* ============================================================ value message *)
-  Lemma step_V y x v l1 l2 : rn y = true -> pd x y = l1 ++ M2Value v :: l2 -> t_state (S y) = 1 ->
-    step_ok y x (M2Value v) l1 l2.
-  Proof.
-    intros Ry Hp Hk s2 o2 e2 Hm.
-    pose proof (pending_nbr x y _ _ _ Hp) as Hxy. pose proof (nbrs_sym d y x Hxy) as Hyx.
-    pose proof (act_of x y Hxy) as Hact.
-    pose proof (i_good _ _ _ _ _ HI y Ry Hact) as Gy.
-    assert (Hne : x <> y) by (intros ->; eapply nbrs_irrefl; eauto).
-    (* the sender runs, is in the same cycle, its value is not yet in the table *)
-    pose proof (in_cnt_pos _ _ (in_pd _ _ _ _ _ Hp)) as Hc1. simpl in Hc1.
-    pose proof (i_pair _ _ _ _ _ HI x y Hxy) as Pxy.
-    assert (Rx : rn x = true).
-    { destruct (rn x) eqn:Rx; [reflexivity|exfalso]. pose proof (p_V _ _ _ _ _ Pxy) as E. unf. rewrite Rx, Ry in E.
-      pose proof (g_c _ _ _ _ Gy). pose proof (b2z_range (kinv x (t_nv (S y)))). lia. }
-    pose proof (i_good _ _ _ _ _ HI x Rx (act_of y x Hyx)) as Gx.
-    destruct (pos_facts x y Hxy Rx Ry) as (Q1 & Q2 & Q3).
-    assert (Hkv : kinv x (t_nv (S y)) = false /\ cnt 1 (pd x y) = 1 /\ t_cycle (S x) = t_cycle (S y) /\ t_fin (S x) = 0).
-    { pose proof (p_V _ _ _ _ _ Pxy) as E. unf. rewrite Rx, Ry in E.
-      pose proof (b2z_range (doneb (t_cycle (S x)))) as Fx. rewrite <- (g_fin _ _ _ _ Gx) in Fx.
-      assert (t_cycle (S x) <= t_cycle (S y)) by (clear - Q1 Q2 Hk; lia).
-      destruct (kinv x (t_nv (S y))); simpl in E; [exfalso; clear - E Hc1 Fx H; lia|].
-      split; [reflexivity|]. clear - E Hc1 Fx H. lia. }
-    destruct Hkv as (Hkv & Hcnt & Hcyc & Hfx).
-    unfold mstep, on_msg in Hm. simpl kind_of in Hm. rewrite Hk in Hm. simpl negb in Hm. cbv iota in Hm.
-    rewrite (dict_set_fresh x v (t_nv (S y)) Hkv) in Hm.
-    match type of Hm with context [handle_value_messages _ _ _ _ ?t] =>
-      assert (KK : skel t = (t_state (S y), t_cycle (S y), t_fin (S y), t_nv (S y) ++ [(x, v)], t_offers (S y), t_ng (S y),
-                             t_partner (S y), t_committed (S y), t_offerer (S y), t_pgain (S y)) /\ posts t = posts (S y))
-        by apply skel_set_nv;
-      remember t as s1 eqn:Es1 in * end.
-    clear Es1. destruct KK as [K1 Po1].
-    destruct (g_nv _ _ _ _ Gy) as [Nd Inc].
-    assert (Nd1 : NoDup (map fst (t_nv (S y) ++ [(x, v)])) /\ incl (map fst (t_nv (S y) ++ [(x, v)])) (nbr y)).
-    { rewrite map_app. simpl. split.
-      - apply NoDup_snoc; [exact Nd|]. apply kinv_false. exact Hkv.
-      - intros z Hz. apply in_app_or in Hz as [Hz|[<-|[]]]; [apply Inc; exact Hz|exact Hxy]. }
-    unfold skel in K1. injection K1 as K1st K1cy K1fi K1nv K1of K1ng K1pa K1co K1or K1pg.
-    assert (SS1 : skelS s1 = skelS (S y)) by (unfold skelS; rewrite K1st, K1cy, K1fi, K1pa, K1co, K1or; reflexivity).
-    assert (Hlen : (length (t_nv s1) <= length (nbr y))%nat).
-    { rewrite K1nv. rewrite <- (map_length fst). apply NoDup_incl_length; apply Nd1. }
-    cbv zeta in Hm. rewrite zlen_eqb in Hm.
-    destruct (Nat.eqb (length (t_nv s1)) (length (nbr y))) eqn:Ez.
-    2:{ (* ---- the value is filed, the table is not complete *)
-      apply Nat.eqb_neq in Ez. unfold ret2 in Hm.
-      injection Hm as <- <- <-.
-      assert (G1 : good y s1).
-      { destruct Gy. constructor; rewrite ?K1st, ?K1cy, ?K1fi, ?K1nv, ?K1of, ?K1ng, ?K1pa, ?K1co, ?K1or, ?K1pg; auto.
-        - intros _. rewrite <- K1nv. lia.
-        - intros H. rewrite Hk in H. lia. }
-      split; [|split; [apply evok_nil; rewrite K1fi; reflexivity|split; [exact Po1|intros Hc; rewrite K1st in Hc; congruence]]].
-      apply (step_frame d stop rn S pd y s1 x (l1 ++ l2) [] HI Ry Hact Hxy G1).
-      - intros x' Hx'. assert (Hx'y : x' <> y) by (intros ->; eapply nbrs_irrefl; eauto).
-        destruct (pd_step_recv pd x y l1 (M2Value v) l2 [] x' Hp Hx'y) as [Hc Hi].
-        apply (pairI_store rn S pd); rewrite ?updS_same, ?updS_other by assumption; try reflexivity; try assumption;
-          rewrite ?Hc, ?K1nv, ?K1of, ?K1ng; simpl kind_of; try (rewrite andb_false_r; simpl; lia).
-        + unfold kinv at 1. rewrite map_app, (proj1 (existsb_app _ _ _)) || idtac.
-          unfold kinv. rewrite map_app. unfold zmem. rewrite existsb_app. simpl. rewrite orb_false_r.
-          destruct (Z.eqb_spec x' x) as [->|Hn]; simpl.
-          * fold (zmem x (map fst (t_nv (S y)))). fold (kinv x (t_nv (S y))). rewrite Hkv. simpl. lia.
-          * rewrite orb_false_r. lia.
-        + intros f os _ H. left. exact H.
-        + apply (i_pair _ _ _ _ _ HI x' y Hx').
-      - intros w Hw. assert (Hwy : w <> y) by (intros ->; eapply nbrs_irrefl; eauto).
-        apply (pairI_ext rn S pd); rewrite ?updS_same, ?updS_other by assumption; try reflexivity; try assumption.
-        + intros k. rewrite pd_step_send. simpl. rewrite app_nil_r. reflexivity.
-        + intros m0. rewrite pd_step_send. simpl. rewrite app_nil_r. auto.
-        + apply (i_pair _ _ _ _ _ HI y w (nbrs_sym d w y Hw)).
-      - intros w _. reflexivity. }
-    (* ---- the table is complete: offers are sent, state offer *)
-    admit.
-  Admitted.
   End W.
 End Steps.
